@@ -144,7 +144,9 @@ def _e2e_glob(ctx, cases, n):
         label = "//%s:g" % ("" if c["root"] == "." else c["root"])
         p = vlib.sh([plz, "query", "print", label, "--field", "srcs", "-p", "-v", "0"], cwd=repo, check=False, timeout=120,
                     env=dict(HOME=home, XDG_CACHE_HOME=os.path.join(home, ".cache"), XDG_CONFIG_HOME=os.path.join(home, ".config")))
-        got = sorted(l.strip() for l in (p.stdout or "").splitlines() if l.strip() and not l.startswith(("WARNING", "20")))
+        # the scratch repository's own .plzconfig is not part of the spec's tree (hidden=True would list it)
+        got = sorted(l.strip() for l in (p.stdout or "").splitlines()
+                     if l.strip() and not l.startswith(("WARNING", "20")) and l.strip() != ".plzconfig")
         if p.returncode != 0:
             raise vlib.Infra("e2e glob: plz query print failed rc=%d: %s" % (p.returncode, (p.stdout or "")[-800:]))
         o = dict(res=got, panic="")
